@@ -377,6 +377,10 @@ var hostileSpecs = []string{"", "grammar", "grammar g", "grammar g;", "grammar g
 	"grammar g; @none <x = > <x = > ; start = x; x = ;", "grammar g; start = ((((((((((\"a\"))))))))));", "grammar g; AB = /[\\xFFFFFFFF]/ start = AB;", "grammar g; AB = /a{3,1}/ start = AB;", "grammar g; AB = /a{64}/ start = AB;", "grammar g; AB = /[a-z]{70}x/ start = AB;",
 	// a terminal without a state of its own (shadowed by a string literal; a class without members) next to others
 	"grammar g; KW = /i[f]/ start = KW \"if\" \"x\";", "grammar g; KW = /i(f)/ ID = /[a-z]+x/ start = { KW | \"if\" | ID };", "grammar g; TT = /\\p{Lt}/ start = TT \"a\";", "grammar g; NN = /[^\\x00-\\x7F]/ start = NN \"a\";",
+	// escaped pattern delimiters and a pattern that ends in an escaped backslash
+	"grammar g; TOK = /\\/\\\\/ start = TOK;", "grammar g; PATH = /(\\/[a-z]+)+\\\\/ start = PATH \"x\";", "grammar g; AA = /\\\\/ BB = /a\\/b\\/\\\\/ start = AA BB;",
+	// nine patterns that are rejected when the automaton is asked for, then one that is not
+	"grammar g; A1 = /(/ A2 = /)/ A3 = /[z-a]/ A4 = /a{2,1}/ A5 = /[/ A6 = /a**/ A7 = /x{3,2}/ A8 = /((/ A9 = /[b-a]/ OK = /ok+/ start = A1 A2 A3 A4 A5 A6 A7 A8 A9 OK;",
 	// more than a hundred distinct terminals, rules and bracketed groups (tables that grow)
 	bigHostileSpec(),
 	// one specimen per semantic diagnostic, in several orders
